@@ -594,8 +594,8 @@ class Bits:
 
     def _setbits(self, bs: BitsType, length: None = None) -> None:
         bs = Bits._create_from_bitstype(bs)
-        # Share the storage only if it is immutable, otherwise take a copy.
-        self._bitstore = bs._bitstore.copy()
+        # Always take a copy: the receiver may be mutable (property assignment) or may flag the storage immutable.
+        self._bitstore = bs._bitstore._copy()
 
     def _setp3binary(self, f: float) -> None:
         self._bitstore = bitstore_helpers.p3binary2bitstore(f)
